@@ -32,7 +32,7 @@ m = {
         "guard": "M17CXX_VERIF",
         "enable": "harness programs are compiled by tools/lib/core.py with -DM17CXX_VERIF against /repo's working tree (header-only library; apps are #included by the harness)",
         "baseline_off_cmd": "cmake --build /repo/_build -j16 -- -k0 ; ctest --test-dir /repo/_build -j8 --timeout 900",
-        "source_commits": [],
+        "source_commits": ["d336da8"],
         "add_only": True,
     },
     "engines": [{"name": "lean4-proof+correspondence", "path": "tools/check.py",
